@@ -1,6 +1,12 @@
 #!/usr/bin/env python3
 """prints the table of behaviour-preserving changes (harmless/) for DESIGN.md"""
 import json, os, re
+NOTES = {
+    'C10-h2': 'ALARM (C10, no-failing-input-found): the step-by-step replay counted one deque access per append -> additions made inside _receive are one access however they are spelt',
+    'C11-h3': 'quiet in C11; ALARM in C10 (same cause as C10-h2)',
+    'C18-h3': 'quiet in C18; ALARM in C10 (same cause as C10-h2)',
+    'C17-h4': 'ALARM (C17): the harness read the private module variable meta._charset, which this change replaces by a private object -> the charset in force is now observed by behaviour only (probe characters encoded / decoded), and reset through the library\'s own switch',
+}
 rows = []
 for s in sorted(os.listdir('/verif/harmless'), key=lambda x: (x.split('-')[0], int(re.sub(r'\D', '', x.split('-')[1])))):
     m = json.load(open('/verif/harmless/%s/meta.json' % s))
@@ -8,11 +14,8 @@ for s in sorted(os.listdir('/verif/harmless'), key=lambda x: (x.split('-')[0], i
     summ = summ if len(summ) < 170 else summ[:167] + '...'
     first = 'quiet' if m.get('confirmed', {}).get('check_exit') == 0 else 'ALARM'
     r = m.get('rechecked', {}).get('checks', {})
-    noisy = [p for p, c in r.items() if c.get('exit') != 0]
-    rows.append('| %s | %s | %s | %s | %s |' % (s, summ.replace('|', '/'), ' '.join(sorted(r)) or m.get('confirmed', {}).get('check', ''),
-                                              NOTES.get(s, first) if (NOTES := {
-        'C10-h2': 'ALARM (C10, no-failing-input-found): the step-by-step replay counted one deque access per append -> additions made inside _receive are one access however they are spelt',
-        'C11-h3': 'quiet in C11; ALARM in C10 (same cause as C10-h2)', 'C18-h3': 'quiet in C18; ALARM in C10 (same cause as C10-h2)'}) or True else first,
-                                              'quiet' if r and not noisy else ('ALARM in ' + ','.join(noisy) if noisy else first)))
+    noisy = [p for p, c in r.items() if isinstance(c, dict) and c.get('exit') != 0]
+    now = 'quiet' if r and not noisy and 'apply' not in r else ('does not apply to the current HEAD' if 'apply' in r else ('ALARM in ' + ','.join(noisy) if noisy else first))
+    rows.append('| %s | %s | %s | %s | %s |' % (s, summ.replace('|', '/'), ' '.join(sorted(k for k in r if k != 'apply')) or m.get('confirmed', {}).get('check', ''), NOTES.get(s, first), now))
 print('| change | what was rewritten | checks run against it | first run | now |\n|---|---|---|---|---|')
 print('\n'.join(rows))
